@@ -11,7 +11,7 @@ use serde_json::{json, Value};
 use std::collections::BTreeSet;
 
 pub fn bcfg(x: XCfg, reack_dup: bool, ack_on_timeout: bool, dally: bool) -> BCfg {
-    BCfg { x, reack_dup, ack_on_timeout, dally, fault_window: None, lose_index: None, lose_times: 0 }
+    BCfg { x, reack_dup, ack_on_timeout, dally, fault_window: None, lose_index: None, lose_times: 0, fast_peer_timer: false }
 }
 
 fn mv(clause: &str, props: &[&'static str], what: String, f: &[(&str, Value)]) -> MViol {
@@ -53,8 +53,10 @@ pub fn judge_b(c: &BCfg, bt: &BTrace) -> Vec<MViol> {
                 if bt.peer_failed && !bt.peer_done {
                     v.push(mv("L1-download-starved", lp, "the conformant client exhausted its 8 retries: the server stopped making progress".into(), &[("role", json!("sender"))]));
                 }
-                if !sum.finished && (bt.final_ack_delivered_to_sender || c.dally) && bt.peer_done {
-                    v.push(mv("L1-sender-gave-up", lp, "the server's sending side ended unsuccessfully although the final ACK reached it / the client dallied".into(), &[("role", json!("sender"))]));
+                // (if the final ACK reached the sender it has finished by definition; the one permitted failure is a lost
+                // final ACK with a client that does not dally)
+                if !sum.finished && c.dally && bt.peer_done {
+                    v.push(mv("L1-sender-gave-up", lp, "the server's sending side ended unsuccessfully although the client dallied and re-acknowledged the final block".into(), &[("role", json!("sender"))]));
                 }
             }
             Role::Receiver => {
@@ -101,7 +103,8 @@ pub fn modeb_cell(spec: &Value) -> Value {
     let mut viol_reruns = 0u64;
     let mut sample: Option<Value> = None;
     let mut hyp_true = 0u64;
-    let stats = explore(bound, max_exec, &mut |prefix: &[u16]| {
+    let shard = (spec["shard"][0].as_u64().unwrap_or(0) as usize, spec["shard"][1].as_u64().unwrap_or(1) as usize);
+    let stats = explore_sharded(bound, max_exec, shard, &mut |prefix: &[u16]| {
         let bt = modeb::run_b(&c0, prefix);
         n += 1;
         let h = trace_hash(&bt.tr.events);
@@ -225,6 +228,12 @@ pub fn c04_cells(tier: Tier) -> Vec<Value> {
                     // three faults on the longest transfers are kept for the thorough tier's small windows
                     let fb = if f == 3 && (ws > 2 || blocks > 5) { 2 } else if tier == Tier::Quick && blocks > 5 { 1 } else { f };
                     cells.push(bspec(&c, fb, &p));
+                    // a peer whose own timer is faster than the worker's (only peers that emit something on their timer)
+                    if at || role == Role::Receiver {
+                        let mut cf = c.clone();
+                        cf.fast_peer_timer = true;
+                        cells.push(bspec(&cf, fb.min(2), &p));
+                    }
                     // family (i): k consecutive losses of the same datagram, every position, k = 1..5
                     if (ra, at, da) == (true, true, false) {
                         let emissions = 2 * blocks + 2;
@@ -279,9 +288,9 @@ pub fn c15_cells(tier: Tier) -> Vec<Value> {
     let p = ["C15"];
     let blk = 8usize;
     let mut cells = vec![];
-    let (lens_blocks, wss, f): (Vec<usize>, Vec<u16>, u64) = match tier {
-        Tier::Quick => (vec![65535, 65537], vec![4, 16], 1),
-        Tier::Thorough => (vec![65534, 65535, 65536, 65537, 65538, 131073], vec![1, 2, 3, 4, 5, 16], 2),
+    let (lens_blocks, wss): (Vec<usize>, Vec<u16>) = match tier {
+        Tier::Quick => (vec![65535, 65537], vec![4, 5, 16]),
+        Tier::Thorough => (vec![65534, 65535, 65536, 65537, 65538, 131073], vec![1, 2, 3, 4, 5, 16]),
     };
     for role in [Role::Sender, Role::Receiver] {
         for &ws in &wss {
@@ -292,8 +301,25 @@ pub fn c15_cells(tier: Tier) -> Vec<Value> {
                 x.snapshot_tail = true;
                 let mut c = bcfg(x, true, true, false);
                 c.fault_window = Some(if nb > 131000 { (131066, 131077) } else { (65530, 65541) });
-                let fb = if nb > 131000 || (tier == Tier::Thorough && ws == 1) { 1.min(f) } else { f };
-                cells.push(bspec(&c, fb, &p));
+                // each execution replays the whole run-up (0.3 s at ws 16 ... 3 s at ws 1): budget the fault bound accordingly
+                let f: u64 = match tier {
+                    Tier::Quick => if ws == 5 { 0 } else { 1 },
+                    Tier::Thorough => {
+                        if ws == 16 && (nb == 65535 || nb == 65537) {
+                            2
+                        } else if ws == 1 && !(nb == 65535 || nb == 65537) {
+                            0
+                        } else {
+                            1
+                        }
+                    }
+                };
+                let shards = if f == 2 { 12 } else if f == 1 && tier == Tier::Thorough { 2 } else { 1 };
+                for sh in 0..shards {
+                    let mut s = bspec(&c, f, &p);
+                    s["shard"] = json!([sh, shards]);
+                    cells.push(s);
+                }
             }
         }
     }
@@ -302,11 +328,17 @@ pub fn c15_cells(tier: Tier) -> Vec<Value> {
 
 pub fn c15_check(tier: Tier) -> Outcome {
     let mut out = Outcome::new("C15", "fault_enumeration");
+    let w = crate::e2_xfer::wrap_cells(tier == Tier::Thorough);
+    let nw = w.len();
+    let hw = std::thread::spawn(move || run_cells("e2_wrap", w, &crate::pool_opts(tier)));
     let cells = c15_cells(tier);
     let n = cells.len();
     let res = run_cells("modeb", cells, &crate::pool_opts(tier));
     out.absorb(res, n);
-    out.rule = "E1 Mode B on transfers longer than 65535 blocks (blksize 8): real Worker + reference peer; every placement of up to F faults (drop, duplicate, delay-past-timeout, swap) restricted to the datagrams that carry or acknowledge absolute blocks 65530..65541 (131066..131077 for the second wrap), window sizes that put the wrap at the end / start / middle of a window, both roles. Oracle: slice monitor with absolute block tracking on every DATA, byte identity of the reassembled / stored file, ACK-implies-stored with file tail snapshots. non-trivial = executions with a distinct worker trace.".into();
+    if let Ok(res) = hw.join() {
+        out.absorb(res, nw);
+    }
+    out.rule = "E1 Mode B on transfers longer than 65535 blocks (blksize 8): real Worker + reference peer; every placement of up to F faults (drop, duplicate, delay-past-timeout, swap) restricted to the datagrams that carry or acknowledge absolute blocks 65530..65541 (131066..131077 for the second wrap), window sizes that put the wrap at the end / start / middle of a window, both roles. Oracle: slice monitor with absolute block tracking on every DATA, byte identity of the reassembled / stored file, ACK-implies-stored with file tail snapshots. PLUS uploads and downloads of 65541 blocks through the real Server over real sockets in both port modes (listener routing across the wrap). non-trivial = executions with a distinct worker trace.".into();
     out.assumptions = vec!["fault positions outside the wrap neighbourhood are covered by C01/C02/C04 on short transfers".into()];
     out
 }
